@@ -465,6 +465,49 @@ theorem bfsOrder_exact (d : List Int) (perm : List Nat) (hp : SortingPerm d perm
   · rw [hout]
     exact hp.sorted.sublist (List.drop_sublist k perm)
 
+/-- the model's `argsort` is one of the permutations `np.argsort` may return -/
+theorem argsort_sortingPerm (d : List Int) : SortingPerm d (argsort d) := by
+  unfold argsort
+  constructor
+  · generalize List.range d.length = l
+    induction l with
+    | nil => simp
+    | cons x xs ih => simp only [List.foldr_cons]; exact (insertBy_perm _ x _).trans (List.Perm.cons x ih)
+  · generalize List.range d.length = l
+    induction l with
+    | nil => simp
+    | cons x xs ih => simp only [List.foldr_cons]; exact insertBy_sorted _ x _ ih
+
+/-- **breadth_first_search, end to end.** From an in-range source, the function lists exactly the nodes
+reachable from it, each once, by non-decreasing hop distance. -/
+theorem breadthFirstSearch_exact (n : Nat) (edge : Nat → Nat → Bool) (s : Nat) (hs : s < n) :
+    ∃ out d, breadthFirstSearch n edge s = .ok (some out) ∧
+      Exact n edge (fun v => [s].contains v) d ∧
+      (∀ v, v ∈ out ↔ v < n ∧ ¬ Unreachable n edge (fun v => [s].contains v) v) ∧ out.Nodup ∧
+      out.Pairwise (fun a b => d.getD a 0 ≤ d.getD b 0) := by
+  obtain ⟨d, hd, hex⟩ := getDistances_plain_exact n edge [s] (by intro i hi; simp at hi; omega)
+  have hb := bfsOrder_exact d (argsort d) (argsort_sortingPerm d)
+  refine ⟨bfsOrderWith d (argsort d), d, ?_, hex, ?_, hb.2.1, hb.2.2⟩
+  · unfold breadthFirstSearch
+    simp only [hd, bind, Except.bind]
+    rfl
+  · intro v
+    rw [hb.1 v, hex.1]
+    constructor
+    · rintro ⟨hv, h0⟩
+      refine ⟨hv, fun hun => ?_⟩
+      have hm := ((exact_entry hex hv).1).2 hun
+      have : d.getD v 0 = d.getD v (-1) := by
+        rw [List.getD_eq_getElem?_getD, List.getD_eq_getElem?_getD, List.getElem?_eq_getElem (by rw [hex.1]; exact hv)]; rfl
+      omega
+    · rintro ⟨hv, hre⟩
+      refine ⟨hv, ?_⟩
+      have : d.getD v 0 = d.getD v (-1) := by
+        rw [List.getD_eq_getElem?_getD, List.getD_eq_getElem?_getD, List.getElem?_eq_getElem (by rw [hex.1]; exact hv)]; rfl
+      rcases hex.2 v hv with ⟨e, he, _⟩ | ⟨_, hun⟩
+      · rw [this, he]; omega
+      · exact absurd hun hre
+
 /-- the model's own `argsort` is a sorting permutation (so the theorem above is not vacuous) -/
 example : SortingPerm [2, -1, 0, -1] (argsort [2, -1, 0, -1]) :=
   ⟨by decide, by decide⟩
